@@ -16,8 +16,10 @@ KINDS = ["CUSUM", "PageHinkley", "GeometricMovingAverage"]
 
 def spec(cls, fp, xs):
     g = 0.0
+    acc = 0.0
     for t in range(1, len(xs) + 1):
-        m = sum(xs[:t]) / t
+        acc += xs[t - 1]
+        m = (sum(xs[:t]) if t <= 400 else acc) / t       # plain sum of the prefix (running sum beyond 400 values: same quantity, O(n))
         x = xs[t - 1]
         if cls == "CUSUM":
             g = max(0.0, g + x - m - fp["delta"])
@@ -134,6 +136,15 @@ def run(out: Outcome) -> None:
             check(out, cls, p, ys, runners)
             check_shift(out, cls, p, xs, rng.choice([1.0, -4.0, 1024.0, 0.1, 3.3, -1e3]), runners)
             check_mono(out, cls, p, xs, rng.choice([0.0, 0.1, 1.0, 5.0]), runners)
+    # long streams (thousands of updates): the running mean and the statistic must keep following the recurrence far beyond the
+    # lengths above (step sizes 1/t below any fixed floor, counters beyond 2^12)
+    for cls in KINDS:
+        for _ in range(3 if thorough else 1):
+            p = gen.rand_params(rng, cls, small=False)
+            n_long = rng.randint(4300, 5200) if not thorough else rng.randint(6000, 9000)
+            cut = rng.randint(n_long // 2, n_long - 200)
+            xs = [rng.gauss(0.0, 1.0) for _ in range(cut)] + [rng.gauss(rng.choice([0.4, 1.0, 3.0]), 1.0) for _ in range(n_long - cut)]
+            check(out, cls, p, xs, runners)
     corr.compare_batch(out, runners)
 
 
